@@ -106,6 +106,7 @@ class _TStr(Ty):
 TInt, TBool, TStr = _TInt(), _TBool(), _TStr()
 
 _un_sorts = {}
+_lit_cache = {}
 
 
 class TUn(Ty):
@@ -132,8 +133,11 @@ class TUn(Ty):
         if v is None and self.has_none:
             return Sym(self.none_term(), self)
         if isinstance(v, str):
-            # distinct concrete strings map to distinct named constants
-            return Sym(z3.Const("lit_%s_%s" % (self.name, v), self._sort), self)
+            # concrete strings map to named constants (pairwise distinctness is stated by the contract)
+            c = _lit_cache.get((self.name, v))
+            if c is None:
+                c = _lit_cache[(self.name, v)] = Sym(z3.Const("lit_%s_%s" % (self.name, v), self._sort), self)
+            return c
         raise TypeError("cannot lift %r into %s" % (v, self.name))
 
 
@@ -447,3 +451,67 @@ class Opaque:
 
 def is_symbolic(v):
     return isinstance(v, Sym)
+
+
+class TUnion(Ty):
+    """Tagged union of alternatives: alts = [(tag, Ty or None, python classes an instance belongs to)]."""
+
+    def __init__(self, name, alts):
+        self.name = name
+        self.alts = list(alts)
+        k = ("union", name)
+        if k not in _dt_cache:
+            d = z3.Datatype("U_" + name)
+            for tag, ty, _ in self.alts:
+                if ty is None:
+                    d.declare(tag)
+                else:
+                    d.declare(tag, ("v_" + tag, ty.sort()))
+            _dt_cache[k] = d.create()
+        self.dt = _dt_cache[k]
+
+    def key(self):
+        return (self.name,)
+
+    def sort(self):
+        return self.dt
+
+    def is_tag(self, term, tag):
+        return getattr(self.dt, "is_" + tag)(term)
+
+    def payload(self, term, tag):
+        ty = [t for g, t, _ in self.alts if g == tag][0]
+        return Sym(getattr(self.dt, "v_" + tag)(term), ty)
+
+    def mk(self, tag, term=None):
+        c = getattr(self.dt, tag)
+        return c if term is None else c(term)
+
+    def isinstance_(self, term, classes):
+        import z3 as _z
+
+        hits = []
+        for tag, ty, pyc in self.alts:
+            if any(isinstance(c, type) and issubclass(p, c) for p in pyc for c in classes):
+                hits.append(self.is_tag(term, tag))
+        if not hits:
+            return False
+        return hits[0] if len(hits) == 1 else _z.Or(*hits)
+
+    def is_none(self, term):
+        for tag, ty, pyc in self.alts:
+            if type(None) in pyc:
+                return self.is_tag(term, tag)
+        return False
+
+    def _lift(self, v):
+        for tag, ty, pyc in self.alts:
+            if v is None and type(None) in pyc:
+                return Sym(self.mk(tag), self)
+            if ty is not None:
+                try:
+                    if type(v) in pyc or (pyc and isinstance(v, pyc[0]) and type(v) is not bool):
+                        return Sym(self.mk(tag, ty.lift(v).term), self)
+                except TypeError:
+                    continue
+        raise TypeError("cannot lift %r into %s" % (v, self.name))
